@@ -11,7 +11,10 @@ CFG = {"oracles": ("C04", "C01"), "violations": ("C04",), "profile": "collide", 
 LEVEL_NOTE = ("theorems: a successful put takes two names that were free and frames every other payload and info file; "
               "two successive puts own distinct names; shutil.move's move-into-directory branch is unreachable when the "
               "destination is free; the first 100 suffixes are distinct. Concurrency: protocol-level theorem in "
-              "Props/C04Par.lean (one system call = one atomic step)")
+              "Props/C04Par.lean (one system call = one atomic step). C04Seq: ANY number of successive successful puts into one trash "
+              "directory (induction over the chain): pairwise distinct names, each free when taken and absent initially; every earlier "
+              "pair and every initial entry exactly as it was at the end; the directory holds exactly N more pairs; the first 100 same-named "
+              "entries are called base, base_1, ... (no random number drawn); a later argument INSIDE the trash directory breaks an earlier pair (kernel-checked, real)")
 RULE_SWEEP = ("; directed: one preemption of process 0 at each of its first 70 steps (another process then runs from start to "
               "end) for the scenarios collision / first use / a directory that contains the shared --trash-dir")
 RULE = ("seeded random put worlds whose candidate trash directories are pre-populated with 0-120 entries named like the "
